@@ -500,22 +500,25 @@ class P(_BaseP0):
             arg = po.mq_file_argument(case, d)
 
             def call(strategy):
+                """never raises: an exception is recorded as an error enum chosen by its TYPE and by the condition of
+                the file argument it belongs to — never by the message text (audit-3 C03-6/X2).  For the four kinds
+                C03 states, the oracle reports any such record as "returned no groups"; for the MaxQuant-native kinds
+                (not in the property text) the record is only compared with the model."""
                 try:
                     return _obj(strategy.group_proteins(_pil_dict(case), arg))
-                except ValueError as e:
-                    if str(e).startswith("Missing MQ protein groups file input"):
+                except ValueError:
+                    mq = case["mq"]
+                    if mq is None:
                         return {"err": "missing_mq_protein_groups"}
-                    if "is missing. Please check your input file" in str(e):
+                    if isinstance(mq, dict) and not {"Protein IDs", "Score"} <= set(mq.get("header", [])):
                         return {"err": "missing_column"}
-                    raise
+                    return {"err": "value_error"}
                 except FileNotFoundError:
-                    if case["mq"] == "unreadable":
-                        return {"err": "file_not_found"}
-                    raise
-                except IndexError as e:
-                    if str(e) == "list index out of range":
-                        return {"err": "short_row"}
-                    raise
+                    return {"err": "file_not_found"}
+                except IndexError:
+                    return {"err": "short_row"}
+                except Exception as e:
+                    return {"err": "raised_" + type(e).__name__}
 
             out["kinds"] = {name: call(grouping.ProteinGroupingStrategyFactory(name)) for name in KINDS}
             out["method_leg"] = call(methods.parse_method_toml(case["method"], use_pseudo_genes=bool(case["pseudo"])).grouping_strategy)
